@@ -30,9 +30,11 @@ Inductive jv :=                       (* documents / dump results *)
 | JNull | JInt (z : Z) | JStr (s : pstr) | JDict (kv : list (pstr * jv)).
 
 Inductive vroot := KInt | KStr | KObj.
-(* a user-defined value type: class chain (most derived first) over a root;
-   chain [3;1] over KInt is  class V3(V1), class V1(int). *)
-Record vtype := { vt_chain : list nat; vt_root : vroot }.
+(* a user-defined value type: plain mixin classes, then a class chain (most derived first) over a root;
+   chain [3;1] over KInt is  class V3(V1), class V1(int);  mixin m is the plain class with chain [m]
+   over KObj, listed BEFORE the chain class in the bases:  mixins [5], chain [], KInt  is
+   class T(M5, int)  (MRO: T, M5, int, object). *)
+Record vtype := { vt_mixins : list nat; vt_chain : list nat; vt_root : vroot }.
 
 Inductive iv :=                       (* Python values held by instances *)
 | VNone | VInt (z : Z) | VStr (s : pstr)
@@ -213,12 +215,19 @@ Fixpoint list_nat_eqb (a b : list nat) : bool :=
 Definition vroot_eqb (a b : vroot) : bool :=
   match a, b with KInt, KInt | KStr, KStr | KObj, KObj => true | _, _ => false end.
 Definition vtype_eqb (a b : vtype) : bool :=
-  vroot_eqb (vt_root a) (vt_root b) && list_nat_eqb (vt_chain a) (vt_chain b).
+  vroot_eqb (vt_root a) (vt_root b) && list_nat_eqb (vt_chain a) (vt_chain b) &&
+  list_nat_eqb (vt_mixins a) (vt_mixins b).
 (* suffix test: chain b is a (non-strict) suffix of chain a *)
 Fixpoint is_suffix (b a : list nat) : bool :=
   list_nat_eqb a b || match a with [] => false | _ :: a' => is_suffix b a' end.
-(* isinstance(obj of type a, class b) for user types *)
-Definition is_sub (a b : vtype) : bool := vroot_eqb (vt_root a) (vt_root b) && is_suffix (vt_chain b) (vt_chain a).
+(* isinstance(obj of type a, class b) for user types: the type itself, a class of its chain,
+   or one of its mixins *)
+Definition is_sub (a b : vtype) : bool :=
+  vtype_eqb a b ||
+  (match vt_mixins b with [] => true | _ => false end &&
+   ((vroot_eqb (vt_root a) (vt_root b) && is_suffix (vt_chain b) (vt_chain a)) ||
+    (vroot_eqb (vt_root b) KObj &&
+     match vt_chain b with [m] => existsb (Nat.eqb m) (vt_mixins a) | _ => false end))).
 
 Fixpoint assoc_vt {A} (k : vtype) (l : list (vtype * A)) : option A :=
   match l with [] => None | (k', v) :: r => if vtype_eqb k k' then Some v else assoc_vt k r end.
